@@ -1259,6 +1259,116 @@ pub fn child(seed: u64) -> i32 {
     0
 }
 
+// ---------------------------------------------------------------- programs the borrow checker must reject
+//
+// "No emission is ever dispatched to a recorder after the borrow that installed it has ended" is carried, for
+// set_default_local_recorder, by the guard's lifetime: the guard keeps the recorder borrowed. Programs in which the
+// borrow would end while the guard lives do not compile today; if a change to the guard type lets them through,
+// each of them dispatches to a recorder whose borrow has ended (and says so when it is run).
+
+const PROBE_PRELUDE: &str = r#"#![allow(unused)]
+use metrics::{Counter, Gauge, Histogram, Key, KeyName, Metadata, Recorder, SharedString, Unit};
+use std::sync::atomic::{AtomicUsize, Ordering};
+
+static CALLS: AtomicUsize = AtomicUsize::new(0);
+
+#[derive(Default)]
+struct Rec {
+    touched: u32,
+}
+impl Rec {
+    fn touch(&mut self) {
+        self.touched += 1;
+    }
+}
+impl Recorder for Rec {
+    fn describe_counter(&self, _: KeyName, _: Option<Unit>, _: SharedString) {}
+    fn describe_gauge(&self, _: KeyName, _: Option<Unit>, _: SharedString) {}
+    fn describe_histogram(&self, _: KeyName, _: Option<Unit>, _: SharedString) {}
+    fn register_counter(&self, _: &Key, _: &Metadata<'_>) -> Counter {
+        CALLS.fetch_add(1, Ordering::SeqCst);
+        Counter::noop()
+    }
+    fn register_gauge(&self, _: &Key, _: &Metadata<'_>) -> Gauge {
+        Gauge::noop()
+    }
+    fn register_histogram(&self, _: &Key, _: &Metadata<'_>) -> Histogram {
+        Histogram::noop()
+    }
+}
+fn report(what: &str) {
+    println!("PROBE-RAN {}: {} emission(s) were dispatched to the recorder after its borrow had ended", what, CALLS.load(Ordering::SeqCst));
+}
+"#;
+
+fn guard_probes() -> Vec<crate::engine::probes::Probe> {
+    use crate::engine::probes::Probe;
+    let mk = |name: &'static str, what: &str, body: &str| Probe { name, what: what.to_string(), source: format!("{}\n{}", PROBE_PRELUDE, body) };
+    vec![
+        mk(
+            "guard_outlives_recorder",
+            "`let guard; { let rec = Rec::default(); guard = set_default_local_recorder(&rec); } counter!(..); drop(guard)` (the recorder is dropped before its guard)",
+            r#"fn main() {
+    let guard;
+    {
+        let rec = Box::new(Rec::default());
+        guard = metrics::set_default_local_recorder(&*rec);
+        std::mem::forget(rec); // (only so that a build that accepts this program does not touch freed memory when run)
+    }
+    metrics::counter!("after").increment(1);
+    drop(guard);
+    report("guard outlives the recorder's scope");
+}
+"#,
+        ),
+        mk(
+            "recorder_mutated_while_installed",
+            "`let mut rec = ..; let guard = set_default_local_recorder(&rec); rec.touch() /* &mut */; counter!(..); drop(guard)` (the shared borrow must still be alive at the &mut use)",
+            r#"fn main() {
+    let mut rec = Rec::default();
+    let guard = metrics::set_default_local_recorder(&rec);
+    rec.touch();
+    metrics::counter!("after").increment(1);
+    drop(guard);
+    report("recorder re-borrowed mutably while installed");
+}
+"#,
+        ),
+        mk(
+            "guard_returned_as_static",
+            "`fn install(rec: &Rec) -> LocalRecorderGuard<'static> { set_default_local_recorder(rec) }` (a guard for a short borrow passed off as one for 'static)",
+            r#"fn install(rec: &Rec) -> metrics::LocalRecorderGuard<'static> {
+    metrics::set_default_local_recorder(rec)
+}
+fn main() {
+    let rec: &'static Rec = Box::leak(Box::new(Rec::default()));
+    let guard = install(rec);
+    metrics::counter!("after").increment(1);
+    drop(guard);
+    println!("PROBE-RAN a LocalRecorderGuard<'static> was obtained from a borrow of any length");
+}
+"#,
+        ),
+    ]
+}
+
+fn guard_probe_lane(pr: &PropRun) -> crate::engine::runner::LaneReport {
+    crate::engine::probes::run(pr, "ill-typed-programs-rejected", "probes-c01", "guard-outlives-the-borrow-it-was-made-from", &guard_probes())
+}
+
+pub fn case_probe_replay(bytes: &[u8], _s: &[u8], ctx: &mut Ctx) -> Result<(), Fail> {
+    let n = guard_probes().len();
+    let i = bytes.first().copied().unwrap_or(0) as usize % n;
+    ctx.case(&("compile probe", guard_probes()[i].name));
+    let cfg = RunCfg { tier: crate::engine::runner::Tier::Quick, seed: 1, scale: 1.0, strict: true, known: vec![] };
+    let pr = PropRun::new("C01", &cfg, RULE);
+    let rep = guard_probe_lane(&pr);
+    match rep.violations.iter().find(|v| v.bytes.first().map(|b| *b as usize) == Some(i)) {
+        Some(v) => Err(Fail::new(&v.sig, v.msg.clone())),
+        None => Ok(()),
+    }
+}
+
 pub fn run(cfg: &RunCfg, replay: Option<&str>) -> i32 {
     let mut pr = PropRun::new("C01", cfg, RULE);
     pr.register("programs", &case_local);
@@ -1269,6 +1379,7 @@ pub fn run(cfg: &RunCfg, replay: Option<&str>) -> i32 {
     pr.register("global-recorder-processes", &child_replay);
     pr.register("guard-thread-affinity", &case_affinity);
     pr.register("re-entrant-local-recorder", &case_reentrant);
+    pr.register("ill-typed-programs-rejected", &case_probe_replay);
     pr.register("exhaustive-guard-orders-le3", &case_exhaustive_replay);
     if let Some(f) = replay {
         return pr.replay(f);
@@ -1286,6 +1397,8 @@ pub fn run(cfg: &RunCfg, replay: Option<&str>) -> i32 {
     let r = affinity(&pr);
     pr.push(r);
     let r = reentrant(&pr);
+    pr.push(r);
+    let r = guard_probe_lane(&pr);
     pr.push(r);
     let r = crate::engine::child::run_children(&pr, "C01", "global-recorder-processes", pr.cfg.cases(12, 300), |_| "1500 generated programs with a global recorder double installed first".to_string());
     pr.push(r);
